@@ -55,12 +55,12 @@ def run(chk):
                'Not machine-checked in this run unless evidence.lean_checked says so')
     chk.assume('prefix handling is checked on a finite, adversarial set of prefixes (bounded), not for a symbolic string')
     mod = kit.load(MOD)
-    closed_forms(chk, mod)
-    pseudo_voigt(chk, mod)
-    polynomial(chk, mod)
-    composite(chk, mod)
+    chk.section('closed_forms', closed_forms, mod)
+    chk.section('pseudo_voigt', pseudo_voigt, mod)
+    chk.section('polynomial', polynomial, mod)
+    chk.section('composite', composite, mod)
     lemmas(chk)
-    prefixes(chk, mod)
+    chk.section('prefixes', prefixes, mod)
     bounded_guess(chk)
 
 
